@@ -19,12 +19,16 @@ import logging
 import warnings
 
 DRIVER = "C12"
-RULE = ("programs: exprgen (0-4 dims, dims 0-13 incl. 0 and 1, chunks 1..dim+1, 13 dtypes, 35 op families, DAGs of <=6 ops, "
-        "1-3 outputs) plus family-dense programs (elementwise/broadcast, reductions, arg reductions, cumulative, squeeze/"
-        "expand_dims/permute, concat/stack/unstack/repeat/tile/roll, rechunk, index, qr, matmul) and direct map_blocks / "
-        "partial_reduce calls with random chunks/drop_axis/new_axis/split_every; optimize_graph on and off; every out "
-        "coordinate of every op (<=64 per op in the correspondence); non-trivial = some array of the case has >1 block; "
-        "distinct by JSON description / request text")
+RULE = ("programs: exprgen (0-4 dims, dims 0-13 incl. 0 and 1, chunks 1..dim+1 chosen per input, 13 dtypes, 35 op families, DAGs of "
+        "<=6 ops, 1-3 outputs): one third unrestricted, two thirds family-dense groups (elementwise/broadcast, reductions, "
+        "axes, join, select, linalg), plus single-family programs for 21 focus families (repeat, index, concat, stack, unstack, "
+        "squeeze, expand_dims, permute_dims, reduce, argreduce, cumulative, rechunk, qr, ...); direct calls on random metas "
+        "(rank 1-4, dims 0-13, chunks 1..dim+1, <=64 blocks): map_blocks with chunks/drop_axis/new_axis, partial_reduce with "
+        "split_every/combine_sizes, merge_chunks, rechunk, expand_dims/squeeze with 1-2 axes, index (ints, int arrays, slices "
+        "with steps in +-1..7), repeat, broadcasting add, multi-axis reductions; dtype sweep: 27 unary/reduction functions x 13 "
+        "dtypes, 13 binary functions x 13 dtypes, add over all 156 mixed pairs; optimize_graph on and off; every out coordinate "
+        "of every op in the oracle, <=64 per op in the correspondence; non-trivial = some array of the case has >1 block / "
+        "the op has >1 out block; distinct by JSON description / request text")
 ASSUMPTIONS = [
     "inputs of an op are arrays whose chunks are regular grids (what CoreArray.__init__ derives from the zarr chunk size) — checked on every array met",
     "NumPy's shape behaviour of the block functions (elementwise broadcasting, keepdims reductions, expand_dims/squeeze/"
@@ -41,7 +45,8 @@ TRUSTED = ["modelled not verified: NumPy block kernels' shapes, zarr indexer / c
 # upcast to the default integer of the same signedness, comparisons -> bool, abs(complex) -> real float); where cubed
 # *declines* (mean/var/std of integers, mixed-kind promotion outside the standard) nothing is compared.
 DTYPE_RULES = ("declared == computed == stored; declared == NumPy 2 result dtype (array-API rules coincide); declines not compared; "
-               "mean/var/std of bool (outside the standard, cubed keeps bool) not compared with NumPy")
+               "mean/var/std of bool (outside the standard, cubed keeps bool) not compared with NumPy; clip(x, lo, hi) with array "
+               "bounds: dtype of x (array API) accepted where NumPy promotes")
 
 DECLINE = (ValueError, TypeError, NotImplementedError, IndexError)
 MAXC = 64
@@ -584,7 +589,8 @@ def direct_cases(ctx, n):
     for _ in range(n):
         shape, chunks = rand_meta(rng, ndim=rng.choice([1, 2, 2, 3, 3, 4]))
         an = np.arange(int(np.prod(shape)), dtype="int64").reshape(shape)
-        kind = rng.choice(["mb_drop", "mb_new", "mb_chunks", "pr", "pr_comb", "merge", "rechunk", "expand", "squeeze", "mb_same2"])
+        kind = rng.choice(["mb_drop", "mb_new", "mb_chunks", "pr", "pr_comb", "merge", "rechunk", "expand", "squeeze", "mb_same2",
+                           "index", "index", "repeat", "bcast", "reduce"])
         case = {"kind": kind, "shape": shape, "chunks": chunks}
         try:
             with CallTracer() as t:
@@ -641,6 +647,44 @@ def direct_cases(ctx, n):
                     ax = tuple(sorted(rng.sample(range(nd + k), k)))
                     case["axis"] = ax
                     r = xp.squeeze(xp.expand_dims(x, axis=ax), axis=ax if rng.random() < 0.6 else ax[:1])
+                elif kind == "index":
+                    key = []
+                    used_arr = False
+                    for s_ in shape:
+                        q = rng.random()
+                        if q < 0.15 and s_ > 0:
+                            key.append(rng.randint(-s_, s_ - 1))
+                        elif q < 0.3 and s_ > 0 and not used_arr:
+                            used_arr = True
+                            key.append(np.array([rng.randint(0, s_ - 1) for _ in range(rng.randint(1, 7))]))
+                        elif q < 0.4:
+                            key.append(slice(None))
+                        else:
+                            st = rng.choice([1, 1, 2, 2, 3, 4, 5, 7, -1, -2, -3])
+                            a_ = rng.choice([None, rng.randint(-s_ - 1, s_ + 1)])
+                            b_ = rng.choice([None, rng.randint(-s_ - 1, s_ + 1)])
+                            key.append(slice(a_, b_, st))
+                    case["key"] = [k.tolist() if isinstance(k, np.ndarray) else ([k.start, k.stop, k.step] if isinstance(k, slice) else k) for k in key]
+                    r = x[tuple(key)]
+                    if r is x:
+                        continue
+                elif kind == "repeat":
+                    ax = rng.randrange(nd)
+                    rep = rng.choice([1, 2, 2, 3, 3, 4, 5])
+                    case["axis"], case["repeats"] = ax, rep
+                    r = xp.repeat(x, rep, axis=ax)
+                elif kind == "bcast":
+                    sh2 = tuple(1 if rng.random() < 0.4 else s_ for s_ in shape)[rng.randint(0, nd - 1):]
+                    ch2 = tuple(max(1, rng.randint(1, s_ + 1)) for s_ in sh2)
+                    case["shape2"], case["chunks2"] = sh2, ch2
+                    y = xp.asarray(np.ones(sh2, dtype="int64"), chunks=ch2, spec=_spec())
+                    r = xp.add(x, y) if rng.random() < 0.5 else xp.multiply(y, x)
+                elif kind == "reduce":
+                    axes = tuple(sorted(rng.sample(range(nd), rng.randint(1, nd))))
+                    kd = rng.random() < 0.4
+                    se = rng.choice([None, 2, 3, 4, 8])
+                    case["axis"], case["keepdims"], case["split_every"] = axes, kd, se
+                    r = getattr(xp, rng.choice(["sum", "max", "prod"]))(x, axis=axes, keepdims=kd, split_every=se)
                 else:  # two arguments with different numbers of blocks (align_arrays=False: most blocks wins)
                     y = xp.asarray(an[tuple(slice(0, 1) for _ in shape)], chunks=tuple(1 for _ in shape), spec=_spec())
                     r = cubed.map_blocks(np.add, x, y, dtype=x.dtype) if rng.random() < 0.5 else cubed.map_blocks(np.add, y, x, dtype=x.dtype)
@@ -760,8 +804,8 @@ def drive_parts(ctx, parts):
 
 def corr(ctx):
     _quiet()
-    drive_parts(ctx, [corr_reference(ctx), corr_programs(ctx, ctx.budget(25, 300), kfam=ctx.budget(2, 12)),
-                      direct_cases(ctx, ctx.budget(50, 400))])
+    drive_parts(ctx, [corr_reference(ctx), corr_programs(ctx, ctx.budget(25, 200), kfam=ctx.budget(2, 8)),
+                      direct_cases(ctx, ctx.budget(50, 300))])
 
 
 # ----------------------------------------------------------------------------------------------
@@ -869,7 +913,7 @@ def check_program(p, optimize):
             out["meta"].append("%s: declared shape %s, NumPy gives %s" % (what, d[0], tuple(ref[j].shape)))
         if d[1] != r.dtype:
             out["meta"].append("%s: declared dtype %s, computed result has dtype %s" % (what, d[1], r.dtype))
-        if d[1] != ref[j].dtype and not dtype_outside_standard(p, j, ref):
+        if d[1] != ref[j].dtype and not dtype_outside_standard(p, j, ref, d[1]):
             ins = [str(ref[k].dtype) for k in p.ops[j - ni]["in"]] if j >= ni else []
             out["dtype_dev"].append("%s of %s: declared dtype %s, NumPy gives %s" % (what, ins, d[1], ref[j].dtype))
         if a.size > 0:
@@ -888,13 +932,17 @@ def check_program(p, optimize):
     return out
 
 
-def dtype_outside_standard(p, j, ref):
-    """inputs for which the array-API standard defines no result dtype (NumPy's answer is not a reference there):
-    mean / var / std of a boolean array (cubed keeps bool; declared == computed == stored is still required)."""
+def dtype_outside_standard(p, j, ref, declared=None):
+    """cases where NumPy's result dtype is not the reference (declared == computed == stored is still required):
+    * mean / var / std of a boolean array: the array-API standard defines no result dtype (cubed keeps bool);
+    * clip(x, min, max) with array bounds of a wider dtype: the standard says the result has the dtype of x
+      (cubed follows it), NumPy promotes."""
     ni = len(p.inputs)
     if j < ni:
         return False
     o = p.ops[j - ni]
+    if o["op"] == "clip" and declared is not None and declared == ref[o["in"][0]].dtype:
+        return True
     return o["op"] in ("mean", "var", "std") and ref[o["in"][0]].dtype.kind == "b"
 
 
@@ -1107,8 +1155,8 @@ def oracle(ctx):
     ctx.notes.append("dtype reference: " + DTYPE_RULES)
     known_triggers(ctx)
     dtype_sweep(ctx, ctx.budget(0.1, 0.5))
-    oracle_programs(ctx, ctx.budget(60, 700))
-    oracle_programs(ctx, 0, tag="oracle-fam", programs=family_programs(ctx, ctx.budget(3, 20)))
+    oracle_programs(ctx, ctx.budget(60, 450))
+    oracle_programs(ctx, 0, tag="oracle-fam", programs=family_programs(ctx, ctx.budget(3, 12)))
 
 
 def search(ctx):
